@@ -142,3 +142,13 @@ Proof.
   cbn [t_g]. unfold trim_edges, sort_nodes. cbn [g_nodes].
   apply sort_by_in. exact H1.
 Qed.
+
+(* the edge cutoff: no shown edge weighs less than it *)
+Theorem shown_edge_not_below_cutoff_lemma : forall o pr e,
+  In e (g_edges (t_g (new_trimmed_text o pr))) -> (abs64 (e_w e) <? o_edgecutoff o) = false.
+Proof.
+  intros o pr e. unfold new_trimmed_text. cbv zeta.
+  destruct (trim_pass1 o (rebuild o pr)) as [g1 dropped]. cbn [t_g].
+  unfold trim_edges at 1. cbn [g_edges]. intros H. apply filter_In in H. destruct H as [_ H].
+  apply negb_true_iff in H. exact H.
+Qed.
